@@ -249,6 +249,67 @@ fn check_file(bytes: &[u8], kv: &Kv, version: u64, container: usize, tmp: &std::
     }
 }
 
+/// The readers shipped as a command line tool: `fst range -o <file>` must print exactly the content of reference-encoded files of
+/// every supported version (keys here are printable, so the CSV output needs no quoting).
+fn cli_readers(ctx: &Ctx, ev: &mut Ev) {
+    let bin = match std::env::var_os("FST_BIN") {
+        Some(b) => std::path::PathBuf::from(b),
+        None => {
+            ev.count("cli-readers:binary-not-available");
+            return;
+        }
+    };
+    let dir = ctx.root.join("target").join("tmp").join(format!("c10-cli-{}", std::process::id()));
+    let _ = std::fs::remove_dir_all(&dir);
+    if std::fs::create_dir_all(&dir).is_err() {
+        return;
+    }
+    let mut rng = Rng::new(ctx.seed, 0xC10C11);
+    let mut models: Vec<Kv> = vec![vec![], vec![(vec![], 0)], vec![(vec![], 7)], vec![(b"a".to_vec(), 1)], vec![(vec![], 2), (b"a".to_vec(), 5), (b"ab".to_vec(), 1 << 40), (b"b".to_vec(), 3)]];
+    models.push((b'!'..=b'~').filter(|c| *c != b',' && *c != b'"').map(|c| (vec![c], c as u64 * 3)).collect());
+    for _ in 0..ctx.tier.pick(12, 100) {
+        let n = 1 + rng.usize(40);
+        let mut m: std::collections::BTreeMap<Vec<u8>, u64> = Default::default();
+        for _ in 0..n {
+            let l = 1 + rng.usize(8);
+            m.insert((0..l).map(|_| b'a' + rng.below(6) as u8).collect(), rng.below(1 << 20));
+        }
+        models.push(m.into_iter().collect());
+    }
+    for (mi, kv) in models.iter().enumerate() {
+        for version in 1..=3u64 {
+            let bytes = refenc::encode(kv, version, 0, [1u8, 0, 2][mi % 3], &mut rng);
+            if !matches!(refdec::decode(&bytes), Ok(d) if &d.entries() == kv) {
+                continue;
+            }
+            let path = dir.join(format!("m{}-v{}.fst", mi, version));
+            if std::fs::write(&path, &bytes).is_err() {
+                continue;
+            }
+            ev.eval(Some(crate::rng::fnv_u64(0xC10C, (mi * 4) as u64 + version)));
+            ev.count("cli-readers:files");
+            if bytes.len() < 36 {
+                ev.count("cli-readers:files-shorter-than-36-bytes");
+            }
+            let out = std::process::Command::new(&bin).arg("range").arg("-o").arg(&path).env_remove("FST_VERIF_TRACE").env_remove("FST_VERIF_SEED").output();
+            let descr = || J::obj(vec![("version", J::U(version)), ("file_bytes", J::U(bytes.len() as u64)), ("file_hex", J::s(crate::json::hex(&bytes[..bytes.len().min(200)]))), ("entries", J::A(kv.iter().take(20).map(|(k, v)| J::A(vec![J::bytes(k), J::U(*v)])).collect()))]);
+            match out {
+                Err(_) => ev.count("cli-readers:spawn-failed"),
+                Ok(o) => {
+                    let want: String = kv.iter().map(|(k, v)| format!("{},{}\n", String::from_utf8_lossy(k), v)).collect();
+                    let got = String::from_utf8_lossy(&o.stdout).to_string();
+                    if !o.status.success() {
+                        ev.violate("wellformed-file-rejected", format!("`fst range` exits with {:?} on a well-formed version-{} file of {} bytes: {}", o.status.code(), version, bytes.len(), String::from_utf8_lossy(&o.stderr).lines().find(|l| !l.trim().is_empty()).unwrap_or("")), descr());
+                    } else if got != want {
+                        ev.violate("reader-mismatch", format!("`fst range -o` on a well-formed version-{} file of {} bytes prints {} bytes, the content renders as {} bytes", version, bytes.len(), got.len(), want.len()), descr());
+                    }
+                }
+            }
+        }
+    }
+    let _ = std::fs::remove_dir_all(&dir);
+}
+
 fn header_sweep(ev: &mut Ev) {
     // supported numbers, their neighbours, and numbers that only LOOK supported when truncated to 8, 16 or 32 bits or read with the wrong byte order
     let versions: [u64; 22] = [0, 1, 2, 3, 4, 5, 255, 256 + 3, 256 + 1, (1 << 16) + 3, (1 << 16) + 2, 1 << 32, (1 << 32) + 1, (1 << 32) + 2, (1 << 32) + 3, (7 << 32) + 3, (1 << 63) + 3, 1 << 63, 3 << 56, 1 << 56, u64::MAX - 1, u64::MAX];
@@ -532,12 +593,14 @@ pub fn run(ctx: &Ctx) -> i32 {
             }
         }
     });
+    let mut ev = ev;
+    cli_readers(ctx, &mut ev);
     finish(
         ctx,
         ev,
         Spec {
             level: "exploration",
-            rule: "(additionally: a container opened from one file whose data is swapped through map_data for DIFFERENT well-formed bytes of the SAME length - the other content, or the same content in another version - must pass the battery for the bytes it holds now) one evaluation = one file opened in one container and put through the query battery (len/is_empty, full stream, a depth-first enumeration through the low-level node interface root()/node()/transitions()/transition(i)/transition_addr(i)/find_input(all 256 bytes) whose accessors must agree with each other and with the content, verify() = Ok for v3 / ChecksumMissing for v1-2, lookups of keys/prefixes/extensions and every single byte from the root, 4 random ranges, Subsequence and DFA searches) against the model the file encodes; files: ~8000 (thorough 40000) models x versions {1,2,3} x 2 output distributions and node-form policies produced by the harness' independent reference encoder (self-checked by the independent decoder; includes empty map, only-empty-key, files of 32..35 bytes, nodes with >32 transitions with and without index, dense product sets with far more keys than bytes), cross-version union/intersection/difference together with the crate's own output, 40 committed golden files (v1/v2/v3 reference encodings and v3 crate output with sidecar content), corpora in all versions; containers rotate over Vec, &[u8], Cow::Borrowed/Owned, Box<[u8]>, Arc newtype, memory map, map_data, Map/Set wrappers; plus a header sweep: version field in {0,1,2,3,4,5,255,2^32,u64::MAX} x lengths 0..44 x 3 fillings with the required error class (Version{expected:3,got}, Format{size}); non-trivial = every evaluation; distinct = by construction / fingerprint",
+            rule: "(the reader shipped as a command line tool: `fst range -o <file>` (subprocess) over reference-encoded files of every version, including the 32..35-byte files of versions 1 and 2, must exit 0 and print exactly the file's content) (additionally: a container opened from one file whose data is swapped through map_data for DIFFERENT well-formed bytes of the SAME length - the other content, or the same content in another version - must pass the battery for the bytes it holds now) one evaluation = one file opened in one container and put through the query battery (len/is_empty, full stream, a depth-first enumeration through the low-level node interface root()/node()/transitions()/transition(i)/transition_addr(i)/find_input(all 256 bytes) whose accessors must agree with each other and with the content, verify() = Ok for v3 / ChecksumMissing for v1-2, lookups of keys/prefixes/extensions and every single byte from the root, 4 random ranges, Subsequence and DFA searches) against the model the file encodes; files: ~8000 (thorough 40000) models x versions {1,2,3} x 2 output distributions and node-form policies produced by the harness' independent reference encoder (self-checked by the independent decoder; includes empty map, only-empty-key, files of 32..35 bytes, nodes with >32 transitions with and without index, dense product sets with far more keys than bytes), cross-version union/intersection/difference together with the crate's own output, 40 committed golden files (v1/v2/v3 reference encodings and v3 crate output with sidecar content), corpora in all versions; containers rotate over Vec, &[u8], Cow::Borrowed/Owned, Box<[u8]>, Arc newtype, memory map, map_data, Map/Set wrappers; plus a header sweep: version field in {0,1,2,3,4,5,255,2^32,u64::MAX} x lengths 0..44 x 3 fillings with the required error class (Version{expected:3,got}, Format{size}); non-trivial = every evaluation; distinct = by construction / fingerprint",
             assumptions: vec!["inputs that are both of unsupported version and shorter than any well-formed file may report either Format or Version".into(), "reference encoder output is validated by the reference decoder before use; a disagreement aborts the run as a harness error".into()],
             floors: vec![
                 ("files:version-1", 1000),
@@ -553,6 +616,8 @@ pub fn run(ctx: &Ctx) -> i32 {
                 ("header-sweep-images", 1000),
                 ("cross-version-set-operations", 1000),
                 ("map_data-onto-different-bytes-of-the-same-length", 1000),
+                ("cli-readers:files", 40),
+                ("cli-readers:files-shorter-than-36-bytes", 4),
                 ("map_data-onto-another-version-of-the-same-length", 500),
             ],
             exhaustive: Some(false),
